@@ -16,7 +16,8 @@ def get_type_layout(
     entrypoints: bool = False,
 ) -> Tuple[Optional[Dict[str, str]], Optional[Dict[str, str]], Dict[int, str]]:
     reserved = set()
-    path_to_key = {}
+    path_to_key: Dict[str, str] = {}
+    unnamed = []
     for i, (bin_path, arg) in enumerate(flat_args):
         key = arg.field_name
         if key is None and not entrypoints:
@@ -26,7 +27,17 @@ def get_type_layout(
             path_to_key[bin_path] = key
         else:
             assert entrypoints is False, f'duplicate key {key}'
-            path_to_key[bin_path] = f'{arg.prim}_{i}'
+            path_to_key[bin_path] = ''  # NOTE: keeps the positional order of paths
+            unnamed.append((i, bin_path, arg))
+
+    # NOTE: generated names must not clash with annotations (e.g. `pair (int %int_1) int`), otherwise two paths share a key
+    taken = set(reserved)
+    for i, bin_path, arg in unnamed:
+        key = f'{arg.prim}_{i}'
+        while key in taken:
+            key += '_'
+        taken.add(key)
+        path_to_key[bin_path] = key
 
     idx_to_path = dict(enumerate(path_to_key))
     if len(reserved) == 0 and infer_names is False and entrypoints is False:
